@@ -357,6 +357,148 @@ pub mod lir {
 
         include!("harness.rs");
     }
+
+    /// generated structural equality (src/lir/lower/eq.rs): which field is compared at which offset
+    pub mod eq_unit {
+        use crate::{
+            ast::Identifier,
+            ice,
+            label::LabelRef,
+            lir::IrValue,
+            mir::{Pool, Ty, TyRef},
+            runtime::{
+                layout::{Layout, LayoutBuilder},
+                Rt,
+            },
+            typechecker::{
+                info::TypeInfo,
+                scope::ScopeRef,
+                types::Primitive,
+            },
+        };
+
+        use super::{value::IrType, Block, FloatCmp, Instruction, IntCmp, Operand, Var, VarKind};
+
+        impl From<&str> for Identifier {
+            fn from(s: &str) -> Self {
+                Identifier(match s {
+                    "left" => 1,
+                    "right" => 2,
+                    "eq" => 3,
+                    "false" => 4,
+                    _ => 9,
+                })
+            }
+        }
+        impl From<&String> for Identifier {
+            fn from(_s: &String) -> Self {
+                Identifier(8)
+            }
+        }
+        // error / label text is not part of the contract
+        macro_rules! format {
+            ($($t:tt)*) => {
+                String::new()
+            };
+        }
+
+        pub struct LabelStore {
+            pub n: usize,
+        }
+        impl LabelStore {
+            pub fn new_label(&mut self, _identifier: Identifier) -> LabelRef {
+                self.n += 1;
+                LabelRef(self.n - 1)
+            }
+            pub fn wrap_internal(&mut self, _parent: LabelRef, _identifier: Identifier) -> LabelRef {
+                self.n += 1;
+                LabelRef(self.n - 1)
+            }
+        }
+        pub struct LowerCtx<'c> {
+            pub runtime: &'c Rt,
+            pub type_info: &'c mut TypeInfo,
+            pub label_store: &'c mut LabelStore,
+        }
+        /// (offset handed to `offset()` for the left operand, for the right operand, field type)
+        #[derive(Clone, Copy, Debug, PartialEq)]
+        pub struct Cmp {
+            pub left_offset: u32,
+            pub right_offset: u32,
+            pub ty: TyRef,
+        }
+        pub struct Lowerer<'c, 'r> {
+            pub ctx: &'c mut LowerCtx<'r>,
+            pub blocks: Vec<Block>,
+            pub tmp: usize,
+            // recorded by the shims
+            pub last_offsets: [(usize, u32); 2],
+            pub n_offsets: usize,
+            pub cmps: [Option<Cmp>; 4],
+            pub n_cmps: usize,
+            pub other_arm: bool,
+            pub returned: usize,
+        }
+
+        impl Lowerer<'_, '_> {
+            // ---- real text
+            /*@FN_GENERATE_EQ_BODY@*/
+
+            /*@FN_GENERATE_EQ_BODY_RECORD@*/
+
+            fn layout_of(&self, ty: TyRef) -> Option<Layout> {
+                self.ctx.type_info.ty_pool.layout_of(ty, self.ctx.runtime)
+            }
+            fn is_reference_type(&mut self, ty: TyRef) -> Option<bool> {
+                self.ctx.type_info.ty_pool.is_reference_type(ty, self.ctx.runtime)
+            }
+
+            // ---- recording shims of the emitters
+            fn current_label(&self) -> LabelRef {
+                LabelRef(0)
+            }
+            fn emit_jump(&mut self, _lbl: LabelRef) {}
+            fn new_block(&mut self, _label: LabelRef) {}
+            fn emit_switch(&mut self, _examinee: Operand, _branches: Vec<(usize, LabelRef)>, _default: LabelRef) {}
+            fn emit_return(&mut self, _var: Option<Operand>) {
+                self.returned += 1;
+            }
+            fn offset(&mut self, var: Var, offset: u32) -> Var {
+                let base = match var.kind {
+                    VarKind::Explicit(Identifier(k)) => k as usize,
+                    _ => 0,
+                };
+                self.last_offsets[self.n_offsets % 2] = (base, offset);
+                self.n_offsets += 1;
+                self.tmp += 1;
+                Var { scope: var.scope, kind: VarKind::Tmp(self.tmp) }
+            }
+            fn call_eq_by_ptr(&mut self, _left: Var, _right: Var, ty: TyRef) -> Operand {
+                // the two preceding offset() calls produced the operands: left base first, then right
+                let (lb, lo) = self.last_offsets[0];
+                let (rb, ro) = self.last_offsets[1];
+                assert!(lb == 1 && rb == 2 && self.n_offsets % 2 == 0, "shim: operands of a field comparison are left+offset, right+offset");
+                assert!(self.n_cmps < 4, "shim: comparison log full");
+                self.cmps[self.n_cmps] = Some(Cmp { left_offset: lo, right_offset: ro, ty });
+                self.n_cmps += 1;
+                Operand::Value(IrValue::Bool(true))
+            }
+            fn generate_eq_body_enum(&mut self, _l: Var, _r: Var, _variants: &[(Identifier, Vec<TyRef>)]) {
+                self.other_arm = true;
+            }
+            fn generate_eq_runtime(&mut self, _l: Var, _r: Var, _ty: TyRef) {
+                self.other_arm = true;
+            }
+            fn generate_int_eq(&mut self, _l: Var, _r: Var, _ty: TyRef) {
+                self.other_arm = true;
+            }
+            fn generate_float_eq(&mut self, _l: Var, _r: Var, _ty: TyRef) {
+                self.other_arm = true;
+            }
+        }
+
+        include!("harness_eq.rs");
+    }
 }
 
 fn main() {}
